@@ -18,7 +18,12 @@ Kinds == {"int", "uint", "float", "bool", "string", "bytes"}
 Locs == {"path", "query", "header", "cookie", "body"}
 Modes == {"required", "optional", "default"}
 Rules == {"none", "min", "max", "xmin", "xmax", "minlen", "maxlen", "enum", "pattern", "format", "cminlen", "cmaxlen"}
-Nests == {"direct", "elem", "mapkey", "mapval", "alias", "nested"}
+Nests == {"direct", "elem", "mapkey", "mapval", "alias", "nested",
+          \* two levels: a user type holding a map / list whose keys / elements carry the rule, and a list / map of user types
+          "nested_mapkey", "nested_elem", "elem_nested", "mapval_nested",
+          \* a map whose key type is a user type (alias) that appears nowhere else
+          "mapkey_alias"}
+Deep == {"nested_mapkey", "nested_elem", "elem_nested", "mapval_nested", "mapkey_alias"}
 StrShapes == {"plain", "slash", "pcthex", "space", "uni", "plus"}
 
 V(c, k, sh, sz) == [cls |-> c, n |-> k, s |-> sh, cn |-> sz]
@@ -32,8 +37,8 @@ WFAttr(a) ==
   /\ (a.loc = "path" => a.mode = "required" /\ a.kind \in {"int", "uint", "float", "bool", "string"} /\ a.nest \in {"direct", "alias"})
   /\ (a.loc = "cookie" => a.nest \in {"direct", "alias"} /\ a.kind # "bytes")
   /\ (a.loc \in {"query", "header"} => a.nest \in {"direct", "alias", "elem"} /\ a.kind # "bytes")
-  /\ (a.nest \in {"mapkey", "mapval", "nested"} => a.loc = "body")
-  /\ (a.nest = "mapkey" => a.kind \in {"string", "int"})
+  /\ (a.nest \in {"mapkey", "mapval", "nested"} \cup Deep => a.loc = "body")
+  /\ (a.nest \in {"mapkey", "nested_mapkey", "mapkey_alias"} => a.kind \in {"string", "int"})
   /\ (a.kind = "bytes" => a.nest = "direct" /\ a.rule \in {"none", "minlen", "maxlen"})
   /\ (a.kind = "bool" => a.rule = "none")
   /\ (a.rule \in {"min", "max", "xmin", "xmax"} => a.kind \in NumKinds)
@@ -71,12 +76,13 @@ ShapeFits(v) == v.cls # "string" \/ ((v.s \in {"pcthex", "space"} => v.n >= 3) /
 ValsOf(a) ==
   LET leaf == {v \in LeafVals(a.kind) : ShapeFits(v)} IN
   IF a.nest \in {"direct", "alias", "nested"} THEN leaf
+  ELSE IF a.nest \in Deep THEN {[v EXCEPT !.cn = c] : v \in leaf, c \in (IF a.nest \in {"nested_mapkey", "mapkey_alias"} THEN {1} ELSE {1, 2})}
   ELSE IF a.rule \in {"cminlen", "cmaxlen"}
        THEN {[v EXCEPT !.cn = c] : v \in {w \in leaf : w.n = 3 /\ w.s = "plain"} \cup {w \in leaf : w.cls = "bool"}, c \in {0, Lo - 1, Lo, Hi, Hi + 1}}
        ELSE {[v EXCEPT !.cn = c] : v \in leaf, c \in (IF a.nest = "mapkey" THEN {1} ELSE {1, 2})}
 
 \* can the caller leave the attribute unset?  (Go: pointer field, nil slice or nil map)
-CanBeAbsent(a) == a.mode = "optional" \/ (a.mode = "required" /\ a.nest \in {"elem", "mapkey", "mapval", "nested"}) \/ (a.mode = "required" /\ a.kind = "bytes")
+CanBeAbsent(a) == a.mode = "optional" \/ (a.mode = "required" /\ a.nest \in {"elem", "mapkey", "mapval", "nested"} \cup Deep) \/ (a.mode = "required" /\ a.kind = "bytes")
 \* an empty string cannot be a path segment: the envelope does not send one
 PayloadVals(a) == {v \in ValsOf(a) : ~(a.loc = "path" /\ v.s = "empty")} \cup (IF CanBeAbsent(a) THEN {Absent} ELSE {})
 
